@@ -2,6 +2,7 @@
 package run
 
 import (
+	"strings"
 	"sync"
 	"time"
 
@@ -70,7 +71,28 @@ func Discharge(jobs []Job, timeout time.Duration, seed int, workers int) []Resul
 						r = r2
 					}
 				}
-				res[i] = Result{Obl: j.Obl, Status: r.Status, Solver: r.Solver, Ms: r.Ms, Model: r.Model, Output: r.Output, Query: q, Ex: j.Ex}
+				if r.Status != smt.Unsat && len(j.Obl.Parts) > 0 && j.Obl.Note != "must-fail" {
+					// find the first conjunct that is not discharged and report that one
+					for _, part := range j.Obl.Parts {
+						po := *j.Obl
+						po.Parts = nil
+						po.Goal = part.Goal
+						po.Name = strings.Replace(j.Obl.Name, "ensures#all", part.Name, 1)
+						pq := j.Ex.Query(&po)
+						pr := smt.Solve(pq, to, seed)
+						if pr.Status != smt.Unsat {
+							res[i] = Result{Obl: &po, Status: pr.Status, Solver: pr.Solver, Ms: pr.Ms, Model: pr.Model, Output: pr.Output, Query: pq, Ex: j.Ex}
+							break
+						}
+					}
+					if res[i].Obl != nil {
+						continue
+					}
+				}
+				res[i] = Result{Obl: j.Obl, Status: r.Status, Solver: r.Solver, Ms: r.Ms, Ex: j.Ex}
+				if r.Status != smt.Unsat || j.Obl.Note == "must-fail" {
+					res[i].Model, res[i].Output, res[i].Query = r.Model, r.Output, q
+				}
 			}
 		}()
 	}
